@@ -2,6 +2,7 @@ package rules
 
 import (
 	"sort"
+	"strings"
 
 	"verif/tools/internal/ir"
 )
@@ -45,6 +46,12 @@ func recoverRenames(c *Ctx, prog *ir.Program, path string, mkNorm func(skip stri
 			return true
 		})
 	}
+	defer func() {
+		// second chance, by position in the call graph: a reviewed function that is gone, and exactly one new function
+		// that every surviving reviewed caller of it now refers to, are the same function renamed AND edited.  It is
+		// analysed under the old name; its edited body is then compared with the reviewed forms like any other edit.
+		recoverRenamesByCallers(c, prog, path)
+	}()
 	taken := map[string]bool{}
 	done := map[*ir.Func]bool{}
 	// repeat: a renamed function that calls another renamed function matches only after the callee was recovered
@@ -100,5 +107,81 @@ func recoverOne(c *Ctx, prog *ir.Program, path string, mkNorm func(skip string) 
 		prog.ByKey[newKey] = g
 		c.R.Note("rename recovered: the function now called %s has the reviewed normal form of %s and is analysed under that name", oldName, fname)
 		return true
+	}
+}
+
+func recoverRenamesByCallers(c *Ctx, prog *ir.Program, path string) {
+	base := baselineFuncs["fc"]
+	var missing []string
+	for name := range c01ReviewedNF {
+		if _, ok := prog.ByName[name]; !ok {
+			missing = append(missing, name)
+		}
+	}
+	if len(missing) == 0 {
+		return
+	}
+	sort.Strings(missing)
+	// current references: function name -> set of names it mentions
+	cur := map[string]map[string]bool{}
+	refsTo := map[string][]*ir.FuncRef{}
+	for _, fn := range prog.Funcs {
+		set := map[string]bool{}
+		ir.WalkFunc(fn, func(t ir.Term) bool {
+			if fr, ok := t.(*ir.FuncRef); ok {
+				set[trimPkg(ir.ShortKey(fr.Key))] = true
+				refsTo[fr.Key] = append(refsTo[fr.Key], fr)
+			}
+			return true
+		})
+		cur[fn.Name] = set
+	}
+	for _, fname := range missing {
+		// surviving reviewed callers of fname (other than itself)
+		var callers []string
+		for caller, refs := range c01ReviewedRefs {
+			if caller == fname {
+				continue
+			}
+			for _, r := range strings.Fields(refs) {
+				if r == fname {
+					if _, ok := prog.ByName[caller]; ok {
+						callers = append(callers, caller)
+					}
+				}
+			}
+		}
+		if len(callers) == 0 {
+			continue
+		}
+		var cands []*ir.Func
+		for _, g := range prog.Funcs {
+			if !g.Generated || g.Decl == nil || g.Decl.Recv != nil || base[g.Name] {
+				continue
+			}
+			all := true
+			for _, cl := range callers {
+				if !cur[cl][g.Name] {
+					all = false
+				}
+			}
+			if all {
+				cands = append(cands, g)
+			}
+		}
+		if len(cands) != 1 {
+			continue
+		}
+		g := cands[0]
+		oldKey, oldName := g.Key, g.Name
+		newKey := path + "." + fname
+		for _, fr := range refsTo[oldKey] {
+			fr.Key = newKey
+		}
+		g.Key, g.Name = newKey, fname
+		delete(prog.ByName, oldName)
+		prog.ByName[fname] = g
+		prog.ByKey[newKey] = g
+		c.R.Note("rename recovered by callers: every surviving reviewed caller of %s now refers to the new function %s, which is analysed under the old name (its body is compared with the reviewed forms as an edit of %s)", fname, oldName, fname)
 	}
 }
